@@ -35,13 +35,24 @@ class Instance(HObj):
         self.attrs = {}
 
 
+class _IteratorClass:
+    """stands for the class of built-in iterator objects (no methods the analysis follows)"""
+    name = "iterator"
+    qual = "builtins.iterator"
+    bases = ()
+    methods = {}
+    node = None
+    module = None
+    is_enum = False
+
+
 class IterObj(Instance):
     """an iterator object made by iter(<list / tuple>): attrs src (the sequence) and pos (how many elements were taken)"""
     kind = "iter"
 
     def __init__(self, born, src, pos):
         HObj.__init__(self, born)
-        self.cls = None
+        self.cls = _IteratorClass
         self.attrs = {"src": src, "pos": pos}
 
 
@@ -698,6 +709,8 @@ class Interp:
         return ns
 
     def class_attr(self, cinfo, name):
+        if cinfo is None or getattr(cinfo, "node", None) is None:
+            return None
         ns = self.class_ns(cinfo)
         if name in ns:
             return ns[name]
@@ -1207,6 +1220,14 @@ class _ExprMixin:
                         return o.items[idx.v][1]
                     except IndexError:
                         return Op("indexerror", base, idx)
+                if idx == Const(-1) and o.items:
+                    # xs[-1] right after xs.append(e): the element just appended (in the same iteration / on the same path)
+                    last = o.items[-1]
+                    if last[0] == "rep" and last[1] in self.loop_ctx and (last[3] == TRUE or last[3] in set(self.cur_guard_list())):
+                        return last[2]
+                    if last[0] == "v" and not (isinstance(last[1], Op) and (last[1].op == "splat" or last[1].op.startswith("listmut:"))) and \
+                            (last[2] == TRUE or last[2] in set(self.cur_guard_list())):
+                        return last[1]
                 return Op("getitem", base, idx)
             if isinstance(o, DictObj):
                 hit = o.lookup(idx)
